@@ -14,7 +14,7 @@ def _fs(P):
     return P.state.setdefault('fs', {})
 
 
-def _p(v):
+def _p(v, P=None):
     bs = path_str(v).bytes()
     cb = concrete_bytes(bs)
     if cb is None:
@@ -22,7 +22,30 @@ def _p(v):
     s = cb.decode('utf-8', 'surrogateescape')
     while len(s) > 1 and s.endswith('/'):
         s = s[:-1]
+    if P is not None and ('/../' in s + '/' or '/./' in s + '/' or s.startswith('./') or s.startswith('../')):
+        s = _resolve(P, s)
     return s
+
+
+def _resolve(P, s):
+    """resolve . and .. the way the OS does on a file system without symbolic links: `x/..` is the
+    parent only if x is an existing directory; otherwise the path does not exist"""
+    fs = _fs(P)
+    if not s.startswith('/'):
+        s = P.state.get('cwd', '/') .rstrip('/') + '/' + s
+    out = []
+    for c in s.split('/'):
+        if c in ('', '.'):
+            continue
+        if c == '..':
+            cur = '/' + '/'.join(out)
+            if out and not (fs.get(cur) == 'DIR' or any(k.startswith(cur + '/') for k in fs)):
+                return '\0nonexistent'
+            if out:
+                out.pop()
+            continue
+        out.append(c)
+    return '/' + '/'.join(out)
 
 
 def _fault(P, op, path):
@@ -39,7 +62,7 @@ def _io_err(kind='NotFound'):
 
 @model('std::path::Path::exists', 'std::path::Path::try_exists')
 def fs_exists(P, c, args, dt):
-    p = _p(args[0])
+    p = _p(args[0], P)
     P.events.append(('fs', 'exists', p))
     fs = _fs(P)
     r = p in fs or any(k.startswith(p + '/') for k in fs)
@@ -48,16 +71,28 @@ def fs_exists(P, c, args, dt):
 
 @model('std::path::Path::is_file')
 def fs_is_file(P, c, args, dt):
-    p = _p(args[0])
+    p = _p(args[0], P)
     v = _fs(P).get(p)
     return sc_bool(v is not None and v != 'DIR')
 
 
 @model('std::path::Path::is_dir')
 def fs_is_dir(P, c, args, dt):
-    p = _p(args[0])
+    p = _p(args[0], P)
     fs = _fs(P)
     return sc_bool(fs.get(p) == 'DIR' or any(k.startswith(p + '/') for k in fs))
+
+
+@model('std::path::Path::canonicalize', 'std::fs::canonicalize')
+def fs_canonicalize(P, c, args, dt):
+    from .paths import mk_pathbuf
+    p = _p(args[0], P)
+    if not p.startswith('/'):
+        p = _resolve(P, p)
+    fs = _fs(P)
+    if p in fs or any(k.startswith(p + '/') for k in fs) or p == '/':
+        return ok(mk_pathbuf(list(p.encode('utf-8', 'surrogateescape'))))
+    return _io_err('NotFound')
 
 
 @model('std::fs::read_to_string')
